@@ -3,14 +3,17 @@
 Extracted (fail closed -- any shape not recognised raises TranslateError):
   * per path validator (WriteTool._validate_path, ValidateTool._validate_path, file_ops.validate_octave_path):
     the ORDER of its checks as (kind, test source text), kind 1 = '..' component, 2 = symlink walk,
-    3 = extension; the inner tests of the symlink walk; the carve-out constants (depth bound, prefix);
+    3 = extension; the inner link test of the symlink walk -- its text AND the boolean the model consumes
+    (`paths_symlink_requires_exists_<who>`: true for `current.exists() and current.is_symlink()`, false for
+    `current.is_symlink()`; any other test raises) -- ; the carve-out constants (depth bound, prefix);
     the message prefix returned by each refusal (used by the harness to name the refusing check);
   * the three ALLOWED_EXTENSIONS sets (sorted);
   * the error code attached to a refused path at each call site (E_PATH);
   * per entry point (WriteTool.execute, ValidateTool.execute, atomic_write_octave, cli write) the ordered list
     of file-system call sites, classified 0 validate / 1 metadata (stat family) / 2 read / 3 mutate, and the
     fact that the validate call is immediately followed by `if not ok: return/raise`;
-  * the late symlink re-check (test text) of the write block and of atomic_write_octave;
+  * the late symlink re-check (test text + `paths_late_requires_exists_<who>`) of the write block and of
+    atomic_write_octave (exactly one `if` mentioning path_obj.is_symlink() per function);
   * SCHEMA_NAME_PATTERN text, the file-name templates and join expression of load_schema_by_name, the
     search-path expressions of get_schema_search_paths in order;
   * resolve_hermetic_standard: prefix literal, regex text, digest prefix length, file suffix, lower();
@@ -39,6 +42,14 @@ CALLS = {
     "f.fileno": None,
 }
 FS_MODULES = ("os.", "tempfile.", "shutil.", "pathlib.", "io.", "glob.")
+
+# The two shapes of "is this component a symbolic link" the model knows, per receiver name, with the fact the
+# model CONSUMES: does the test first require `exists()` (stat, follows the link -> a dangling / ENOTDIR / >40-chain
+# link is not seen) or is it the lstat-based `is_symlink()` alone.  Any other test text fails closed.
+LINK_TESTS = {
+    recv: {f"{recv}.is_symlink()": False, f"{recv}.exists() and {recv}.is_symlink()": True}
+    for recv in ("current", "path_obj")
+}
 
 
 def _doc_skip(body):
@@ -94,7 +105,7 @@ def _is_symlink_try(st):
     inner = loop.body[1]
     need(isinstance(inner, ast.If) and not inner.orelse, "symlink: inner if")
     inner_test = ast.unparse(inner.test)
-    need(inner_test == "current.exists() and current.is_symlink()", f"symlink: inner test is {inner_test}")
+    need(inner_test in LINK_TESTS["current"], f"symlink: inner test is {inner_test}")
     need(len(inner.body) == 4, "symlink: inner body length")
     need(ast.unparse(inner.body[0]) == "symlink_depth = len(Path(current).parts)", "symlink: depth")
     need(ast.unparse(inner.body[1]) == "resolved_target = current.resolve()", "symlink: resolved_target")
@@ -111,7 +122,8 @@ def _is_symlink_try(st):
     need(isinstance(inner.body[3], ast.Return), "symlink: refusal")
     need(len(st.handlers) == 1 and ast.unparse(st.handlers[0].type) == "Exception" and not st.orelse and not st.finalbody,
          "symlink: handler shape")
-    return {"kind": K_SYMLINK, "test": "absolute != resolved", "inner_test": inner_test, "carve_test": ast.unparse(ct),
+    return {"kind": K_SYMLINK, "test": "absolute != resolved", "inner_test": inner_test,
+            "requires_exists": LINK_TESTS["current"][inner_test], "carve_test": ast.unparse(ct),
             "depth": l.comparators[0].value, "prefix": r.args[0].value, "msg": _msg_prefix(inner.body[3]),
             "exc_msg": _only_return_false(st.handlers[0].body)}
 
@@ -197,13 +209,17 @@ def guard_after_validate(fn, call_text):
 
 
 def late_recheck(fn):
-    """`if path_obj.exists() and path_obj.is_symlink(): return <error>` -> (line, test text, codes)."""
-    for n in ast.walk(fn):
-        if isinstance(n, ast.If) and ast.unparse(n.test) == "path_obj.exists() and path_obj.is_symlink()":
-            need(isinstance(n.body[-1], ast.Return), "late re-check does not return")
-            codes = [x.value for x in ast.walk(n) if isinstance(x, ast.Constant) and isinstance(x.value, str) and x.value.startswith("E_")]
-            return n.lineno, ast.unparse(n.test), codes
-    raise TranslateError(f"{fn.name}: late symlink re-check not found")
+    """`if <link test on path_obj>: return <error>` -> (line, test text, codes, requires_exists).
+
+    Exactly one `if` of the function may mention `path_obj.is_symlink()` and its test must be one of LINK_TESTS."""
+    hits = [n for n in ast.walk(fn) if isinstance(n, ast.If) and "path_obj.is_symlink()" in ast.unparse(n.test)]
+    need(len(hits) == 1, f"{fn.name}: expected exactly one late symlink re-check, found {len(hits)}")
+    n = hits[0]
+    t = ast.unparse(n.test)
+    need(t in LINK_TESTS["path_obj"], f"{fn.name}: late re-check test is {t}")
+    need(not n.orelse and isinstance(n.body[-1], ast.Return), "late re-check does not return")
+    codes = [x.value for x in ast.walk(n) if isinstance(x, ast.Constant) and isinstance(x.value, str) and x.value.startswith("E_")]
+    return n.lineno, t, codes, LINK_TESTS["path_obj"][t]
 
 
 def extract(src):
@@ -353,6 +369,8 @@ def generate(src):
         o.append(f"Definition paths_checks_{who} : list (N * list N) :=\n  {coq_list(items)}.\n")
         sc = [c for c in x["checks"][who] if c["kind"] == K_SYMLINK][0]
         o.append(f"Definition paths_symlink_inner_{who} : list N := {coq_str(sc['inner_test'])}.\n")
+        o.append("(* the walk's link test first requires exists() (stat)?  false = lstat-based is_symlink() alone *)\n")
+        o.append(f"Definition paths_symlink_requires_exists_{who} : bool := {'true' if sc['requires_exists'] else 'false'}.\n")
         o.append(f"Definition paths_carve_test_{who} : list N := {coq_str(sc['carve_test'])}.\n")
         o.append(f"Definition paths_carve_depth_{who} : N := {sc['depth']}.\n")
         o.append(f"Definition paths_carve_prefix_{who} : list N := {coq_str(sc['prefix'])}.\n")
@@ -363,6 +381,7 @@ def generate(src):
     o.append(f"Definition paths_refusal_code : list N := {coq_str(x['guard']['write'][1][0])}.\n")
     for who in ("write", "fileops"):
         o.append(f"Definition paths_late_recheck_{who} : list N := {coq_str(x['late'][who][1])}.\n")
+        o.append(f"Definition paths_late_requires_exists_{who} : bool := {'true' if x['late'][who][3] else 'false'}.\n")
     o.append(f"Definition paths_schema_name_pattern : list N := {coq_str(x['schema_pattern'])}.\n")
     tm = [f"({'true' if low else 'false'}, {coq_str(suf)})" for low, suf in x["schema_templates"]]
     o.append("(* load_schema_by_name: file-name templates (lower-cased name?, literal suffix) *)\n")
